@@ -1220,7 +1220,7 @@ hwloc__xml_import_distances(hwloc_topology_t topology,
   }
 
   /* abort if missing attribute */
-  if (!nbobjs || (!heterotypes && unique_type == HWLOC_OBJ_TYPE_NONE) || !indexing || !kind) {
+  if (!nbobjs || (!heterotypes && unique_type == HWLOC_OBJ_TYPE_NONE) || !indexing) {
     if (hwloc__xml_verbose())
       fprintf(stderr, "%s: %s missing some attributes\n",
 	      state->global->msgprefix, _TAG_NAME);
